@@ -8,7 +8,7 @@ from harness.props.c09 import pre_build
 from bip_utils import (Base58Encoder, Bech32Encoder, SegwitBech32Encoder, BchBech32Encoder, SS58Encoder, WifEncoder, Base58XmrEncoder,
                        SegwitBech32Decoder, BchBech32Decoder, WifPubKeyModes)
 
-LEAN_MODULES = ["BipVerif.Props.C10Codec", "BipVerif.Props.C10Addr"]
+LEAN_MODULES = ["BipVerif.Props.C10Codec", "BipVerif.Props.C10Addr", "BipVerif.Props.C10Distance"]
 IMPL = dict(CODEC_IMPL)
 IMPL.update(ADDR_IMPL)
 IMPL["wifdec"] = B32_IMPL["wifdec"]
